@@ -36,6 +36,62 @@ CLAIMS = {
                 "semantics over the reals. The frame-invariance of the driver's non-dimensionalisation is checked with the driver properties.",
         "technique": "algebraic abstract interpretation + symbolic Lie derivative / substitution identities on normal forms",
     },
+    "C01": {
+        "level": "other",
+        "text": "Structural necessary conditions decided from one abstract interpretation of Mineral.update_orientations with a havoc-ing "
+                "solver stub (stands for any number of solver steps): one append per history list after the last may-raise step, by the "
+                "method itself; no mutation on failing runs; no in-place write reaches a stored snapshot (NumPy aliasing is reproduced by "
+                "the abstract arrays); stored orientations are clip(.,-1,1) cells, stored fractions clip(.,0,.)/sum with sum == 1 identically; "
+                "shapes and state-vector layout agree across y_start / RHS / write-back / extract_vars; seeded, uniform default snapshot; a "
+                "package-wide who-may-write table for Mineral history. Finiteness and orthonormality drift within ODE tolerance are NOT decided.",
+        "note": "Trusted: the LSODA stub (constructor args recorded, step() calls fun then replaces y, status protocol), NumPy view/copy "
+                "semantics, uniformity in the grain count (N=2,3 quick; 1..4 thorough).",
+        "technique": "abstract interpretation with stub models + effect-trace analysis + who-may-write AST rule + CFG dominance",
+    },
+    "C05": {
+        "level": "other",
+        "text": "Homogeneity (dimension) analysis of the extracted right-hand side: all derivatives arguments have degree 0 in the velocity "
+                "gradient, all three rate blocks degree exactly 1, first_step scales with the time span, rtol constant, atol free of time/rate. "
+                "This is the structural reason the texture depends on the strain path only; the numerical agreement itself is NOT decided.",
+        "note": "Trusted: homogeneity facts of eigvalsh/max/abs/SVD factors, LSODA stub. Only dislocation-type regimes (the property's quantifier).",
+        "technique": "abstract interpretation + homogeneity-degree analysis of normal forms",
+    },
+    "C06": {
+        "level": "other",
+        "text": "The F block of the ODE right-hand side is shown identical to L(t,x(t))·F(y) (operand order, same t, row-major, unscaled) and "
+                "the returned value identical to the solver's final y[:9]; start/end times and y_start[:9] are the caller's; deep dependence "
+                "sets exclude texture, parameters and mineral fields; update_all feeds a common F and returns the last result. The quantitative "
+                "ODE error bound and its consequences are NOT decided.",
+        "note": "Trusted: LSODA stub, symbolic callables for L(t,x) and x(t).",
+        "technique": "abstract interpretation with stub models + normal-form identity + dependence sets",
+    },
+    "C07": {
+        "level": "other",
+        "text": "Exhaustive dispatch classification of all eight regimes plus out-of-range ordinals by interpreting each arm (null arms must be "
+                "identically zero), full (phase, fabric) validation table of get_crss, M*=0 => df==0 on the extracted form, raising updates "
+                "leave history untouched (three unsupported regimes, solver failure at each step, regime callback), and every division in "
+                "eval_rhs has a guarded denominator. That the ODE solution is constant under zero rates is NOT decided (solver).",
+        "note": "Trusted: interpreted NumPy/Numba semantics, LSODA stub. Two defects found by these rules were repaired (cfab219, 29bc5b5).",
+        "technique": "abstract interpretation per enum member (exhaustiveness table) + effect trace + division-guard path facts",
+    },
+    "C08": {
+        "level": "other",
+        "text": "For all four assemblage orders and both phases the volume factor wired into the rate kernel is the mineral's own phase "
+                "fraction and no foreign fraction reaches any argument; argument tuples are invariant under simultaneous permutation; every "
+                "function executed on the update path is scanned for writes to module/class state, and no RNG/clock source is reached. "
+                "Bit-identity of repeated runs (LSODA/Numba determinism) is NOT decided.",
+        "note": "Trusted: LSODA stub; the effect scan covers the functions executed by the abstract runs listed in the evidence.",
+        "technique": "abstract interpretation with stub models + dependence sets + AST effect scan of executed functions",
+    },
+    "C09": {
+        "level": "other",
+        "text": "apply_gbs is shown identical to the reference select-form (strict threshold, same threshold for mask and floor, frozen grains "
+                "take the reference orientation, renormalisation) for symbolic chi and n; perform_step's call-site wiring (clipped/normalised "
+                "state, params threshold, snapshot at update start, grain count) and the write-back/read-back layout are decided from the driver "
+                "interpretation. The lower bound chi/(n(1+chi)) over arbitrary histories is NOT decided.",
+        "note": "Trusted: cellwise model of boolean-mask load/store, LSODA stub.",
+        "technique": "algebraic abstract interpretation with mask/select join + stub-driver wiring analysis",
+    },
     "C11": {
         "level": "proof",
         "text": "Every clause claimed is a polynomial identity over generic symbols, extracted from the source of pydrex.tensors by "
